@@ -134,12 +134,14 @@ def run_property(pid, tier):
             print("KNOWN-FINDING: property=%s %s [%s]" % (pid, known[(pid, i.key)], i.key))
         else:
             new.append(i)
-    os.makedirs(os.path.join(VERIF, "reports"), exist_ok=True)
-    os.makedirs(os.path.join(VERIF, "evidence"), exist_ok=True)
+    evdir = os.environ.get("SV_EVIDENCE_DIR") or os.path.join(VERIF, "evidence")
+    repdir = os.path.join(os.environ["SV_EVIDENCE_DIR"], "reports") if os.environ.get("SV_EVIDENCE_DIR") else os.path.join(VERIF, "reports")
+    os.makedirs(repdir, exist_ok=True)
+    os.makedirs(evdir, exist_ok=True)
     for n, i in enumerate(new):
         rp = os.path.join("reports", "%s-%d.json" % (pid, n))
         json.dump({"property": pid, "rule": i.rule, "key": i.key, "where": i.loc, "explanation": i.detail,
-                   "sample": i.sample, "tier": tier}, open(os.path.join(VERIF, rp), "w"), indent=1, default=str)
+                   "sample": i.sample, "tier": tier}, open(os.path.join(repdir, "%s-%d.json" % (pid, n)), "w"), indent=1, default=str)
         print("VIOLATION property=%s replay=%s" % (pid, rp))
         print("  rule %s at %s: %s" % (i.key, i.loc, i.detail))
     # evidence
@@ -183,7 +185,7 @@ def run_property(pid, tier):
         "wall_s": round(time.time() - t0, 2),
         "violations": len(new),
     }
-    json.dump(ev, open(os.path.join(VERIF, "evidence", pid + ".json"), "w"), indent=1, default=str)
+    json.dump(ev, open(os.path.join(evdir, pid + ".json"), "w"), indent=1, default=str)
     ok = sum(1 for i in ctx.insts if i.ok)
     print("[%s %s] %d rule instances, %d hold, %d known, %d new violations, %.1fs"
           % (pid, tier, len(ctx.insts), ok, len(viol) - len(new), len(new), time.time() - t0))
